@@ -12,8 +12,11 @@ from ..common import Inconclusive
 CVC5 = "cvc5"
 
 
-def portable(e):
-    """rewrite z3-only operators (bvsmul_noovfl / bvsmul_noudfl) into SMT-LIB 2.6 terms"""
+def portable(e, side=None):
+    """rewrite z3-only operators (bvsmul_noovfl / bvsmul_noudfl, fp.to_ieee_bv) into SMT-LIB 2.6
+    terms.  `fp.to_ieee_bv(t)` becomes a fresh bit-vector b with the side condition
+    `to_fp(b) = t` appended to `side` (exact whenever t is not NaN - the only use in verdict
+    queries is the result of an int->float conversion, which never is)"""
     cache = {}
     stack = [e]
     while stack:
@@ -41,6 +44,11 @@ def portable(e):
                 r = full <= z3.BitVecVal((1 << (w - 1)) - 1, 2 * w)
             else:
                 r = full >= z3.BitVecVal(-(1 << (w - 1)), 2 * w)
+        elif kind == z3.Z3_OP_FPA_TO_IEEE_BV and side is not None:
+            t = nk[0]
+            b = z3.BitVec("ieee!%d" % i, x.size())
+            side.append(z3.fpBVToFP(b, t.sort()) == t)
+            r = b
         elif all(n.get_id() == k.get_id() for n, k in zip(nk, kids)):
             r = x
         else:
@@ -140,8 +148,11 @@ class Verdicts:
     def _cvc5(self, name, solver, z3res):
         path = os.path.join(self.dir, "%04d-%s.smt2" % (self.n, "".join(c if c.isalnum() or c in "-_." else "_" for c in name)[:80]))
         ps = z3.Solver()
+        side = []
         for a in solver.assertions():
-            ps.add(portable(a))
+            ps.add(portable(a, side))
+        for c in side:
+            ps.add(c)
         body = ps.to_smt2()
         # z3 prints its internal division operators (identical to the SMT-LIB ones under its
         # default hardware interpretation of division by zero)
